@@ -53,7 +53,9 @@ StepRt == /\ Ev.a = "rt"
           (* sdead: the primary is certainly marked dead (transport error or 5xx); pdead: it may be *)
           /\ sdead' = IF Ev.told # "" THEN FALSE
                       ELSE IF Followed THEN sdead
-                      ELSE IF Ev.host = told /\ Ev.resp \in {"none", "5xx"} THEN TRUE
+                      (* only a failed WRITE certainly marks the primary object: reads and discovery
+                         requests go through the endpoint list, whose objects the primary may not share *)
+                      ELSE IF Ev.host = told /\ IsWrite(Ev) /\ Ev.resp \in {"none", "5xx"} THEN TRUE
                       ELSE IF Ev.host = told /\ Ev.resp \in {"2xx", "3xx"} THEN FALSE ELSE sdead
           /\ nreq' = nreq + 1
           /\ viol' = viol \cup (IF IsWrite(Ev) /\ Ev.host # told
